@@ -1,0 +1,35 @@
+//go:build verif
+
+package hap
+
+import "net"
+
+// Verification hooks, only compiled with the "verif" build tag. A deterministic
+// simulator sets these variables to intercept the points where goroutines
+// meet on a connection; when they are nil the behaviour is the shipped one.
+
+// VerifYield is called at the entry of Connection.Read ("read"), Connection.Write
+// ("write"), Connection.Close ("close") and Session.SetCryptographer ("setcrypt").
+// con is the hap connection (for "setcrypt": the session's connection), b the
+// caller's buffer (nil for "close" and "setcrypt").
+var VerifYield func(op string, con net.Conn, b []byte)
+
+// VerifOrderConns may reorder the result of Context.ActiveConnections, which
+// otherwise has Go's randomised map order.
+var VerifOrderConns func(cs []net.Conn) []net.Conn
+
+func verifYield(op string, con net.Conn, b []byte) {
+	if VerifYield != nil {
+		VerifYield(op, con, b)
+	}
+}
+
+func verifOrderConns(cs []net.Conn) []net.Conn {
+	if VerifOrderConns != nil {
+		return VerifOrderConns(cs)
+	}
+	return cs
+}
+
+// VerifUnderlying returns the connection wrapped by a hap connection.
+func VerifUnderlying(con *Connection) net.Conn { return con.connection }
